@@ -22,20 +22,24 @@ from vlib.common import Violation, HarnessError, build_dir
 
 ID = "C17"
 MANIFEST = {
-    "technique": "property-based testing (Hypothesis): generated layouts, Form JSON trees and types against an independent datashape printer, a normal-form model of Form JSON and the library's own equality; print/parse round trips",
-    "level_text": "Generated-input exploration in five parts. (A) for generated valid layouts in every physical encoding, with generated parameters, record names, categorical markers and custom typestrs: type(form(a)) prints as type(a) and as an independent printer of the model type written from the documented datashape syntax; depth, regularity and field queries on the Content and on its Form equal those computed from the nested-list type; form(a) survives JSON. (B) Form JSON trees drawn from the whole node grammar (all 14 Form classes, shorthand and generic spellings, identities flags, form keys, parameters holding arbitrary JSON values): the Form read equals the documented normal form (through accessors and through tojson), re-reading its verbose and terse JSON gives an equal Form (Form::equal with every flag, parameters compared by JSON value by the check), printing is a fixed point, the type survives; (M) damaged Form JSON is refused cleanly or yields a Form whose JSON is a fixed point. (C) range slices keep the type string; every element taken out has the type the array's type promises for its items. (D) types built through the C++ constructors are printed, parsed by the repository's Lark parser (running on C++ Type objects through a stub of ak.types) and must come back equal, structurally identical and printing identically. Held on everything generated outside the recorded known findings.",
-    "level_note": "Trusted: akmodel.typestr (my reading of the datashape documents and of type-grammar.lark), akmodel.forms (my reading of the documented Form JSON defaults), the /verif bridge and the ak.types stub (a re-statement of src/python/types.cpp, which cannot be compiled here), the RapidJSON stand-in (number formatting is its own: parameters are compared by value, never by text). Identities objects, NUL characters in strings, NaN/Infinity in parameters and user-defined typestrs in the parse round trip are not generated.",
+    "technique": "property-based testing (Hypothesis): generated layouts, Form JSON trees and types against an independent datashape printer, a normal-form model of Form JSON and the library's own equality; print/parse round trips through the repository's Lark type parser; the same statements through the Python layer on the _ext emulation; coverage-guided fuzzing (libFuzzer + ASan/UBSan) of Form::fromjson with a fixed-point oracle inside the target",
+    "level_text": "Generated-input exploration in seven parts. (A) for generated valid layouts in every physical encoding, with generated parameters, record names, categorical markers and custom typestrs: type(form(a)) prints as type(a) and as an independent printer of the model type written from the documented datashape syntax; depth, regularity and field queries on the Content and on its Form equal those computed from the nested-list type; form(a) survives JSON. (B) Form JSON trees drawn from the whole node grammar (all 14 Form classes, shorthand and generic spellings, identities flags, form keys, parameters holding arbitrary JSON values): the Form read equals the documented normal form (through accessors and through tojson), re-reading its verbose and terse JSON gives an equal Form (Form::equal with every flag, parameters compared by JSON value by the check), printing is a fixed point, the type survives. (M) damaged Form JSON is refused cleanly or, when the Form that was built describes an array class of the library, survives JSON like any other. (C) range slices keep the type string; every element taken out (the C++ result, before the binding boxes it) has the type the array's type promises for its items. (D) types built through the constructors of ak.types are printed, parsed back by ak.types.from_datashape (the repository's Lark parser, imported from /repo/src, running on C++ Type objects) and must come back structurally identical, equal and printing identically; a text that the parser only reads with high_level=True is given to it that way. (P) through the unmodified Python layer on the awkward._ext emulation: ak.type(array) is '<length> * <datashape>', layout.form.type == layout.type, ndim / ak.fields / purelist_isregular agree with the value, ak.forms.Form.fromjson(form.tojson()) == form, array[a:b] keeps the item type, array[i] is a None / number / str / ak.Record / ak.Array of a type the item type promises. (F, thorough tier) libFuzzer on Form::fromjson: clean refusal, or tojson/fromjson fixed point + Form::equal + same type for every accepted form inside the grammar. Held on everything generated outside the recorded known findings.",
+    "level_note": "Trusted: akmodel.typestr (my reading of the datashape documents and of type-grammar.lark), akmodel.forms (my reading of the documented Form JSON defaults), the /verif bridge and the awkward._ext emulation (a re-statement of src/python/{types,forms,content}.cpp, which cannot be compiled here: what pickling of forms/types or box()/unbox() do in the real binding is not observed), the RapidJSON stand-in (number formatting is its own: parameters are compared by value, never by text). Not exercised: Identities objects (only the has_identities flag of forms), NUL characters in strings, NaN/Infinity in parameters, user-defined typestrs in the parse round trip (a typestr hides the structure it stands for), NumpyArray layouts whose buffer format is not the canonical one of their dtype (such forms only come from Form JSON, parts B/M/F), VirtualArray and partitioned layouts (C18), datetime64/timedelta64 layouts (their forms are generated in part B). Forms that Form.fromjson builds but that describe no array class (index widths without a class, a record with two fields of one name, an itemsize that is not the primitive's) are outside the property's quantifier: only required not to crash. atheris on the type parser (DESIGN) is replaced by Hypothesis part D, which generates the printer's image directly.",
 }
 RULE = ("case = one of: (A) layout description + parameter decoration + custom typestrs + probe keys; (B) Form JSON tree; (M) damaged Form JSON text; "
-        "(C) layout + ranges; (D) extended model type (+ length for ArrayType). non-trivial = the type / form tree has >= 3 nodes and carries at least one "
-        "parameter or record name (for M: the text was accepted or refused by a reader branch below the root); distinct by hash of the case")
+        "(C)/(P) layout + custom typestrs + ranges; (D) extended model type (+ length for ArrayType); (F) one libFuzzer campaign (counted as fuzz_executions, not "
+        "as cases). non-trivial = the type / form tree has >= 3 nodes and carries at least one parameter or record name (for C/P also: the array is not empty; "
+        "for M: the text is longer than 30 characters and the reader accepted a form inside the grammar or refused it); distinct by hash of the case")
 ASSUMPTIONS = [
     "parameter texts are compared as JSON values (1 == 1.0); the stand-in's number formatting is never asserted",
     "identities objects are not generated (has_identities flags of forms are)",
     "strings never contain NUL; parameters never contain NaN/Infinity (not JSON)",
     "minmax_depth/branch_depth are not compared for types containing a record without fields, numfields not for unions (the documents do not define them)",
+    "a decimal position used as a key of a record with named fields (\"1\" on {x, y}) is accepted by the library; the documents do not say either way, so haskey/fieldindex are only compared between Content and Form there",
     "part D does not generate user-defined typestrs (a typestr hides the structure it stands for, so it cannot be parsed back by design)",
+    "from_datashape is called with high_level=True for ArrayType strings and for texts on which the parser itself asserts high_level (as tests/test_0773 does)",
     "Form::equal is called with check_identities, check_parameters, check_form_key on and compatibility_check both off and on",
+    "Content::type is not asked of a zero-dimensional NumpyArray (no caller can obtain one: the binding's box() consumes it); its dtype is read instead",
 ]
 PLAN = {
     "quick": [{"flavour": "plain", "cases": 27000}, {"flavour": "san", "cases": 4000}],
